@@ -32,10 +32,12 @@ type gnode struct {
 }
 
 type world struct {
-	nodes map[int]*gnode
-	strat map[int]bool // gotype -> implements Resolver
-	objs  map[int]interface{}
-	calls []sx.S
+	nodes  map[int]*gnode
+	strat  map[int]bool // gotype -> implements Resolver
+	objs   map[int]interface{}
+	calls  []sx.S
+	strat3 map[int]byte     // C02: gotype -> 'R', 'A' or 'F' (reflection); overrides strat
+	decl   map[[2]int][]int // C02: (gotype, field) -> declared argument names in order
 }
 
 type lres struct{ items []interface{} }
@@ -62,7 +64,17 @@ func (w *world) obj(id int) interface{} {
 	if !ok {
 		r = true
 	}
-	o := newNodeObj(w, id, n.gotype, r)
+	var o interface{}
+	switch w.strat3[n.gotype] {
+	case 'F':
+		o = newReflectObj(w, id, n.gotype)
+	case 'A':
+		o = newNodeObj(w, id, n.gotype, false)
+	case 'R':
+		o = newNodeObj(w, id, n.gotype, true)
+	default:
+		o = newNodeObj(w, id, n.gotype, r)
+	}
 	w.objs[id] = o
 	return o
 }
@@ -241,6 +253,10 @@ func (w *world) resolve(id int, f *ggql.Field, args map[string]interface{}) (int
 type anyRes struct{ w *world }
 
 func (a *anyRes) Resolve(obj interface{}, f *ggql.Field, args map[string]interface{}) (interface{}, error) {
+	if _, isResolver := obj.(ggql.Resolver); isResolver {
+		// an object that resolves itself must never be handed to the root resolver (precedence)
+		return nil, fmt.Errorf("precedence broken: the root resolver was asked for a Resolver object")
+	}
 	if id, ok := nodeIDOf(obj); ok {
 		return a.w.resolve(id, f, args)
 	}
